@@ -81,7 +81,7 @@ func writeOnce(k WriteCase) (out []byte, werr error, panicMsg string) {
 		ssts = append(ssts, ion.NewSharedSymbolTable(t.Name, t.Version, t.Symbols))
 	}
 	w := NewWriterMode(k.Mode, &buf, ssts...)
-	o := &ionx.WriteOpts{Rnd: rand.New(rand.NewSource(k.CaseSeed)), IntVia: k.IntVia, SymbolFromString: false}
+	o := &ionx.WriteOpts{Rnd: rand.New(rand.NewSource(k.CaseSeed)), IntVia: k.IntVia, SymbolFromString: true}
 	if k.FinishEvery > 0 {
 		for i, v := range k.Vals {
 			if err := ionx.Write(w, []*model.Value{v}, o); err != nil {
@@ -331,6 +331,29 @@ func GridCases(thorough bool) []WriteCase {
 				continue
 			}
 			out = append(out, WriteCase{CaseSeed: 1, Mode: m, Vals: []*model.Value{st, l, model.SymV(model.T(fmt.Sprintf("sym_%d", ns-1)))}})
+		}
+	}
+	// "$n" both ways on one writer: through WriteSymbolFromString it is the id n (the driver takes that
+	// road for system words and for $0 on some seeds), as the text of a token it is that text
+	for seed := int64(1); seed <= 12; seed++ {
+		for n, word := range []string{"name", "version", "imports", "symbols", "max_id"} {
+			lit := fmt.Sprintf("$%d", n+4)
+			docs := [][]*model.Value{
+				{model.SymV(model.T(word)), model.Int64V(1).WithAnn(model.T(lit)), model.StructV(model.Int64V(2).WithField(model.T(lit))), model.SymV(model.T(lit)), model.SymV(model.T(word))},
+				{model.SymV(model.T(lit)), model.SymV(model.T(word)), model.SymV(model.T(lit)), model.ListV(model.SymV(model.T(word)).WithAnn(model.T(lit)))},
+				{model.SymV(model.SID(0)), model.SymV(model.T("$0")), model.Int64V(1).WithAnn(model.T("$0")), model.SymV(model.SID(0))},
+			}
+			for di, d := range docs {
+				if di == 2 && n > 0 {
+					continue
+				}
+				for m := 0; m < NModes; m++ {
+					if m == ModePrettyQuiet {
+						continue
+					}
+					out = append(out, WriteCase{CaseSeed: seed, Mode: m, Vals: d})
+				}
+			}
 		}
 	}
 	// runs of lobs (their arguments are cut out of one buffer as adjacent sub-slices for some seeds)
